@@ -483,6 +483,7 @@ pub fn run_property(spec: PropSpec, opt: Options) -> i32 {
   let mut n_written = 0;
   let mut new_violations = 0u64;
   let mut known_hits = vec![];
+  let mut unconfirmed: Vec<String> = vec![];
   let _ = std::fs::create_dir_all(format!("{}/replays", opt.out_dir));
   for (key, vs) in &by_key {
     let first = vs[0];
@@ -498,8 +499,13 @@ pub fn run_property(spec: PropSpec, opt: Options) -> i32 {
         match rerun_with_history(&spec, first.3, &first.5, &first.4, &o2) {
           Ok(keys) if keys.iter().any(|(k, _)| k == key) => needs_history = true,
           _ => {
-            eprintln!("machinery error: violation [{}] of {} reproduced neither in isolation nor after the {} cases that preceded it on its worker thread (process-wide state or uncaptured nondeterminism); case {}", key, spec.id, first.5.len(), first.4);
-            return 2;
+            // not confirmed: never reported as a VIOLATION. (A re-run stops early once it has collected many
+            // violations, so a key that the full run met late may simply not be reached again.) If some OTHER
+            // violation of this run is confirmed the verdict stands on that one; if none is, the run is a
+            // machinery error (below).
+            eprintln!("note: violation [{}] of {} reproduced neither in isolation nor after the {} cases that preceded it on its worker thread; not reported; case {}", key, spec.id, first.5.len(), first.4);
+            unconfirmed.push(key.clone());
+            continue;
           }
         }
       }
@@ -584,6 +590,10 @@ pub fn run_property(spec: PropSpec, opt: Options) -> i32 {
     "[{}] tier={} cases={} evaluations={} distinct_nontrivial={} distinct_outcomes={} states={} transitions={} capped={} violations={} known={} wall={:.1}s",
     spec.id, opt.tier.name(), a.cases_run, evaluations, coverage["distinct_nontrivial"], a.outcomes.len(), states, transitions, a.cases_capped, new_violations, coverage["known_findings_hit"].as_array().map(|x| x.len()).unwrap_or(0), wall
   );
+  if rc == 0 && !unconfirmed.is_empty() {
+    eprintln!("machinery error: {} violation key(s) were observed but none reproduced on replay (process-wide state or uncaptured nondeterminism): {}", unconfirmed.len(), unconfirmed.join(", "));
+    return 2;
+  }
   if rc == 0 && !a.harness_errors.is_empty() {
     return 2;
   }
